@@ -128,15 +128,20 @@ impl Script {
         let mut cursor = Cursor::new(bytes);
 
         let mut bit_accumulator = vec![];
+        // Bytes that follow an OP_RETURN are data, not code (e.g. the state of an sCrypt stateful contract);
+        // there a final push that runs past the end keeps its lenient reading.
+        let mut seen_op_return = false;
         while let Ok(byte) = cursor.read_u8() {
             if byte.ne(&(OpCodes::OP_0 as u8)) && byte.lt(&(OpCodes::OP_PUSHDATA1 as u8)) {
                 let mut data: Vec<u8> = vec![0; byte as usize];
                 match cursor.read(&mut data) {
-                    Ok(len) => bit_accumulator.push(ScriptBit::Push(data[..len].to_vec())),
+                    Ok(len) if len == data.len() || seen_op_return => bit_accumulator.push(ScriptBit::Push(data[..len].to_vec())),
+                    Ok(len) => return Err(BSVErrors::DeserialiseScript(format!("OP_PUSH declares {} bytes but only {} remain", byte, len))),
                     Err(e) => return Err(BSVErrors::DeserialiseScript(format!("Failed to read OP_PUSH data {}", e))),
                 }
                 continue;
             }
+            seen_op_return |= byte == OpCodes::OP_RETURN as u8;
 
             let bit = match OpCodes::from_u8(byte) {
                 Some(v @ (OpCodes::OP_PUSHDATA1 | OpCodes::OP_PUSHDATA2 | OpCodes::OP_PUSHDATA4)) => {
@@ -146,8 +151,13 @@ impl Script {
                         _ => cursor.read_u32::<LittleEndian>()? as usize,
                     };
 
+                    let remaining = bytes.len().saturating_sub(cursor.position() as usize);
+                    if data_length > remaining {
+                        return Err(BSVErrors::DeserialiseScript(format!("OP_PUSHDATA declares {} bytes but only {} remain", data_length, remaining)));
+                    }
+
                     let mut data = vec![0; data_length];
-                    if let Err(e) = cursor.read(&mut data) {
+                    if let Err(e) = cursor.read_exact(&mut data) {
                         return Err(BSVErrors::DeserialiseScript(format!("Failed to read OP_PUSHDATA data {}", e)));
                     }
 
